@@ -250,3 +250,7 @@ VBE_FLAG_CONSTANTS = {
     ("VBEWindowAttributes", "RELOCATABLE"): 0x1, ("VBEWindowAttributes", "READABLE"): 0x2, ("VBEWindowAttributes", "WRITEABLE"): 0x4,
     ("VBEDirectColorAttributes", "PROGRAMMABLE"): 0x1, ("VBEDirectColorAttributes", "RESERVED_USABLE"): 0x2,
 }
+
+# VBE 3.0 ModeInfoBlock.MemoryModel: 00h text, 01h CGA graphics, 02h Hercules graphics, 03h planar, 04h packed pixel,
+# 05h non-chain 4 / 256 colour, 06h direct colour, 07h YUV (08h-0Fh reserved by VESA, 10h-FFh OEM defined)
+VBE_MEMORY_MODELS = {0: "Text", 1: "CGAGraphics", 2: "HerculesGraphics", 3: "Planar", 4: "PackedPixel", 5: "Unchained", 6: "DirectColor", 7: "YUV"}
